@@ -101,6 +101,8 @@ def main(argv):
     if not ok_assert:
         c.broken.append("assertion-flavour build failed: " + blog[-500:])
     c.proofs()
+    if not quick:
+        coqchk(c)
     drv, dlog = build_driver("C08")
     tool = repo_bin("b64filter")
     tool_assert = repo_bin("b64filter", "assert")
@@ -134,6 +136,17 @@ def main(argv):
             c.broken.append("model driver died: " + err[-300:])
             mout = None
     tee_model = mout[len(mlines):] if mout else []
+    mcnt = None
+    if drv is not None:
+        ids = [i for i, (docs, inp, k) in enumerate(runs) if k == "id" and docs is not None]
+        fl = [(i, d) for i in ids for d in runs[i][0]]
+        rc, fo, err = run_lines(drv, ["F " + hx(d) for _, d in fl])
+        if len(fo) == len(fl):
+            mcnt = {}
+            for (i, d), o in zip(fl, fo):
+                t = o.split()
+                mcnt.setdefault(i, []).append(int(t[2]) if t[0] == "OK" else -1)
+            c.cov["traces_validated_against_impl"] += len(fl)
     tee_i = 0
     ndis = 0
     scratch = tempfile.mkdtemp(prefix="c08-", dir=os.environ.get("VERIF_BUILD", "/var/tmp"))
@@ -145,7 +158,27 @@ def main(argv):
                 logf = os.path.join(scratch, "tee.log")
                 open(logf, "wb").close()
                 argv.append(logf)
-            st, so, se = run_tool(argv, stdin=inp, timeout=30)
+            # the feeder/collector trace hooks (PREPROCESS_VERIF, another property's hook commit) report
+            # Document.line_cnt as the feeder computed it ("F lines n") and as the collector uses it ("C need n")
+            tenv = dict(os.environ, PREPROCESS_VERIF_TRACE_FD="2") if k == "id" else None
+            st, so, se = run_limited(argv, stdin=inp, timeout=30, env=tenv)
+            if tenv is not None and docs is not None and st == 0:
+                tl = se.decode("utf-8", "replace").split("\n")
+                fcnt = [int(x.split()[2]) for x in tl if x.startswith("F lines ")]
+                ccnt = [int(x.split()[2]) for x in tl if x.startswith("C need ")]
+                if fcnt or ccnt:          # hooks present in this tree
+                    want_cnt = [len(doc_lines(d)) for d in docs]
+                    c.cov["traces_validated_against_impl"] += 1
+                    if fcnt != want_cnt or ccnt != want_cnt:
+                        j = [x for x in range(len(want_cnt)) if x >= len(fcnt) or x >= len(ccnt) or fcnt[x] != want_cnt[x] or ccnt[x] != want_cnt[x]]
+                        c.violation("line-count-bookkeeping: per-document line counts: feeder %r, collector %r, documents have %r lines (first difference at document %s)" % (fcnt[:12], ccnt[:12], want_cnt[:12], j[:1]),
+                                    {"op": "b64filter", "child": "child_id.py", "stdin": inp.decode("latin1"), "documents": [d.decode("latin1") for d in docs],
+                                     "feeder_line_cnt": fcnt, "collector_need": ccnt, "expected": want_cnt, "how": "PREPROCESS_VERIF_TRACE_FD=2 b64filter child_id.py"})
+                    if mcnt is not None:
+                        mc = mcnt.get(i)
+                        if mc is not None and mc != fcnt:
+                            c.broken.append("correspondence feed_doc model vs feeder trace: model line counts %r, trace %r" % (mc[:12], fcnt[:12]))
+                se = b""
             shape = "malformed" if docs is None else ("has-empty-doc" if b"" in docs else ("has-cr" if any(b"\r" in d for d in docs) else "plain"))
             c.count((k, inp), nontrivial=len(inp) > 1, bucket="%s/%s" % (k, shape))
             rep = {"op": "b64filter", "child": "child_%s.py" % k, "stdin": inp.decode("latin1"), "stdin_hex": hx(inp),
@@ -206,12 +239,129 @@ def main(argv):
                     break
             # --- undefined behaviour made visible: the same input on the build with libstdc++ assertions
             if ok_assert and k == "id" and (b"" in docs or i % 7 == 0):
-                st2, so2, se2 = run_tool([tool_assert, os.path.join(CHILDREN, "child_id.py")], stdin=inp, timeout=30)
+                st2, so2, se2 = run_limited([tool_assert, os.path.join(CHILDREN, "child_id.py")], stdin=inp, timeout=30)
                 c.count(("assert", inp), nontrivial=True, bucket="assert-build/" + shape)
                 if st2 != 0 or so2 != so:
                     c.violation("undefined-behaviour: b64filter built with -D_GLIBCXX_ASSERTIONS ends with status %s (%s) on this input; the plain build exits %s" % (st2, " ".join(se2.decode("utf-8", "replace").split())[-200:], st),
                                 dict(rep, assert_build_status=st2, assert_build_stderr=se2.decode("utf-8", "replace")[-400:],
                                      how="build with -D_GLIBCXX_ASSERTIONS; printf '<stdin>' | b64filter child_id.py"))
+        # --- children that break the line structure: the tool must fail, never shift documents
+        sruns = []
+        for i, docs in enumerate(cases):
+            if i % (3 if quick else 1) == 0 and docs:
+                enc = [pyb64.b64encode(d) for d in docs]
+                sruns.append((docs, b"\n".join(enc) + b"\n", "drop2" if i % 2 == 0 else "extra"))
+        smodel = None
+        if drv is not None:
+            rc, smodel, err = run_lines(drv, ["BS %s %s" % (k, hx(inp)) for (_, inp, k) in sruns])
+            if len(smodel) != len(sruns):
+                c.broken.append("model driver died on stream children: " + err[-300:])
+                smodel = None
+        for j, (docs, inp, k) in enumerate(sruns):
+            st, so, se = run_limited([tool, os.path.join(CHILDREN, "child_%s.py" % k)], stdin=inp, timeout=30)
+            nlines = sum(len(doc_lines(d)) for d in docs)
+            c.count(("stream", k, inp), nontrivial=True, bucket="child-%s/%s" % (k, "1-line" if nlines == 1 else "n-lines"))
+            rep = {"op": "b64filter", "child": "child_%s.py" % k, "stdin": inp.decode("latin1"), "documents": [d.decode("latin1") for d in docs],
+                   "status": st, "stdout": so.decode("latin1")[:1000], "stderr": se.decode("utf-8", "replace")[-300:]}
+            must_fail = (k == "extra") or nlines >= 2
+            if st == "timeout":
+                c.violation("hang: b64filter with a child that %s did not finish" % ("drops a line" if k == "drop2" else "adds a line"), rep)
+            elif must_fail and st == 0:
+                c.violation("line-structure-broken-unnoticed: child_%s.py wrote %s than it was given, b64filter exit 0" % (k, "one line fewer" if k == "drop2" else "one line more"), rep)
+            if smodel is not None:
+                m = smodel[j]
+                agree = (m.startswith("OK") and st == 0 and m == "OK " + hx(so)) or (m.startswith("ABORT") and st not in (0, "timeout"))
+                if not agree:
+                    c.broken.append("correspondence b64filter model vs bin/b64filter with child_%s.py: stdin %r: model %s, tool status %s" % (k, inp[:100], m[:100], st))
+        c.cov["traces_validated_against_impl"] += len(sruns)
+        # --- long streams: the feeder->collector queue (util::UnboundedSingleQueue) works in pages of 1023
+        #     entries; document counts around multiples of the page size, all at once and with stdin
+        #     stalling exactly at a page boundary (the collector then catches up with the feeder there)
+        stream_hangs = [0]
+
+        def check_stream(tag, docs, st, so, se, how):
+            if st == "timeout":
+                stream_hangs[0] += 1
+            c.count((tag, len(docs)), nontrivial=True, bucket="long-stream/" + tag.split(":")[0])
+            rep = {"op": "b64filter", "child": "child_id.py", "documents": len(docs), "first_documents": [d.decode("latin1") for d in docs[:3]],
+                   "status": st, "stdout_lines": so.count(b"\n"), "stderr": se.decode("utf-8", "replace")[-300:], "how": how}
+            if st == "timeout":
+                c.violation("hang: b64filter did not finish a stream of %d documents (%s)" % (len(docs), tag), rep)
+                return
+            if st != 0:
+                c.violation("tool-failed: b64filter exit status %s on a stream of %d well-formed documents (%s), %d of them came out" % (st, len(docs), tag, so.count(b"\n")), rep)
+                return
+            ol = so.split(b"\n")
+            if so.endswith(b"\n") or so == b"":
+                ol.pop()
+            if len(ol) != len(docs):
+                c.violation("document-count: %d documents in, %d base64 lines out (%s)" % (len(docs), len(ol), tag), rep)
+                return
+            for j, (d, l) in enumerate(zip(docs, ol)):
+                if l != pyb64.b64encode(d):
+                    try:
+                        got = pyb64.b64decode(l)
+                    except Exception:
+                        got = l
+                    c.violation("identity-child: document %d of %d (%s) %r came back as %r" % (j, len(docs), tag, d[:60], got[:60]), dict(rep, document_index=j))
+                    return
+
+        def mkdocs(n, salt):
+            ds = []
+            for i in range(n):
+                if i % 1023 == 1022:
+                    ds.append(b"long document %d\n" % i + b"x" * 9000 + b"\nend")      # forces a flush towards the child
+                elif i % 5 == 0:
+                    ds.append(b"doc %d %d" % (salt, i))                               # no final newline
+                elif i % 13 == 0:
+                    ds.append(b"")
+                else:
+                    ds.append(b"document %d line one\nline two of %d\n" % (i, i))
+            return ds
+        idc = os.path.join(CHILDREN, "child_id.py")
+        for n in ((1022, 1023, 1024, 2046, 2047, 3500) if quick else (1021, 1022, 1023, 1024, 1025, 2045, 2046, 2047, 2048, 3069, 3500, 5200)):
+            if stream_hangs[0] >= 2:
+                break
+            docs = mkdocs(n, n)
+            inp = b"".join(pyb64.b64encode(d) + b"\n" for d in docs)
+            st, so, se = run_limited([tool, idc], stdin=inp, timeout=60)
+            check_stream("at-once", docs, st, so, se, "%d documents (see mkdocs in checks/C08.py) | b64filter child_id.py" % n)
+        # one very large document (bigger than every stream buffer and pipe) between small ones
+        big = b"".join(b"row %d of the big document %s\n" % (i, b"z" * (i % 97)) for i in range(6000))
+        docs = mkdocs(40, 1) + [big, b"", big[:-1]] + mkdocs(40, 2)
+        st, so, se = run_limited([tool, idc], stdin=b"".join(pyb64.b64encode(d) + b"\n" for d in docs), timeout=120)
+        check_stream("big-document", docs, st, so, se, "80 small documents around two ~400 kB documents of 6000 lines | b64filter child_id.py")
+        for n, cuts in ((2500, (1023, 2046)), (1100, (1022,)), (2100, (1024, 2047))):
+            docs = mkdocs(n, 7)
+            enc = [pyb64.b64encode(d) + b"\n" for d in docs]
+            parts, prev = [], 0
+            for cpos in cuts:
+                parts.append(b"".join(enc[prev:cpos]))
+                prev = cpos
+            parts.append(b"".join(enc[prev:]))
+            for child in (idc, "cat"):
+                if stream_hangs[0] >= 2:
+                    break
+                st, so, se = run_staged([tool, child], parts, pause=1.2, timeout=60)
+                check_stream("stalled-stdin:%s" % os.path.basename(child), docs, st, so, se,
+                             "%d documents, stdin pauses 1.2 s after document(s) %s | b64filter %s" % (n, list(cuts), os.path.basename(child)))
+        c.cov["traces_validated_against_impl"] += 12
+        # --- thorough: every document shape through the AddressSanitizer build of the tool (UBSan is left out:
+        #     it stops at the signed left shift in preprocess/base64.cc, C09's modelled 32-bit wrap)
+        if not quick:
+            ok_asan, alog = build_repo(["b64filter"], flavour="asan_only")
+            if not ok_asan:
+                c.broken.append("asan build of b64filter failed: " + alog[-300:])
+            else:
+                aenv = dict(os.environ, ASAN_OPTIONS="detect_leaks=0", UBSAN_OPTIONS="print_stacktrace=1:halt_on_error=1")
+                for docs in cases[:2 * len(SHAPES) + 5]:
+                    inp = b"".join(pyb64.b64encode(d) + b"\n" for d in docs)
+                    st, so, se = run_limited([repo_bin("b64filter", "asan_only"), idc], stdin=inp, timeout=60, mem_mb=0, env=aenv)
+                    c.count(("asan", inp), nontrivial=True, bucket="asan-build")
+                    if st != 0 or b"AddressSanitizer" in se or b"runtime error" in se:
+                        c.violation("memory: sanitizer report / failure of the AddressSanitizer build of b64filter (status %s): %s" % (st, " ".join(se.decode("utf-8", "replace").split())[:300]),
+                                    {"op": "b64filter-asan", "stdin": inp.decode("latin1"), "documents": [d.decode("latin1") for d in docs], "status": st, "report": se.decode("utf-8", "replace")[-1500:]})
+                        break
     finally:
         shutil.rmtree(scratch, ignore_errors=True)
     c.cov["traces_validated_against_impl"] += len(runs)
